@@ -447,8 +447,7 @@ class Eval:
             n = self.e(x[2], env)
             if not (-62 <= n <= 62):
                 raise OutOfSubset('shift count')
-            if a < 0:
-                raise OutOfSubset('shift of negative')
+            # right shifts are arithmetic (floor), as the builtin is defined (C04); left shifts must not overflow
             return self.num(a << n) if n >= 0 else a >> (-n)
         raise ValueError(x)
 
